@@ -9,7 +9,8 @@
 //
 //	BEGIN <casefile> <id>
 //	RUN exit=<code|-1> timeout=<0|1> wall_ms=<n>
-//	CHILDREN alive_at_exit=<n> waited_ms=<n> killed=<0|1>   (processes of ow-sim's process group still running when ow-sim itself had exited)
+//	CHILDREN alive_at_exit=<n> waited_ms=<n> killed=<0|1>   (live processes of ow-sim's process group when ow-sim itself had exited -- or, on timeout, when the group was killed)
+//	IMPLATEXIT <model> <label> ...     (only when alive_at_exit > 0, SPLIT models: content of split_<model>.h5 at the moment ow-sim exited, before the writer children finished)
 //	LOG <text>                         (tail of stdout+stderr when exit != 0 or timeout)
 //	TRACE <event> <gen>
 //	NOFILE ok|created                  (only for OUTFILE 0)
@@ -137,7 +138,7 @@ type runOutcome struct {
 	startErr  string
 }
 
-func runBinary(bin, dir string, args []string, logFn string, timeout time.Duration) runOutcome {
+func runBinary(bin, dir string, args []string, logFn string, timeout time.Duration, atExit func()) runOutcome {
 	var o runOutcome
 	logf, err := os.Create(logFn)
 	if err != nil {
@@ -180,6 +181,7 @@ func runBinary(bin, dir string, args []string, logFn string, timeout time.Durati
 		o.exit = -1
 		o.alive = len(groupMembers(pgid))
 		syscall.Kill(-pgid, syscall.SIGKILL)
+		o.killedKid = true
 		<-done
 		o.wallMs = time.Since(start).Nanoseconds() / 1e6
 		return o
@@ -189,6 +191,9 @@ func runBinary(bin, dir string, args []string, logFn string, timeout time.Durati
 	o.alive = len(kids)
 	if o.alive > 0 {
 		t0 := time.Now()
+		if atExit != nil {
+			atExit() // what a reader sees at the moment ow-sim returns
+		}
 		for len(groupMembers(pgid)) > 0 {
 			if time.Since(t0) > timeout {
 				syscall.Kill(-pgid, syscall.SIGKILL)
@@ -288,9 +293,24 @@ func runCase(out *bufio.Writer, bin, work string, index int, casefile string) (o
 	}
 
 	logFn := filepath.Join(dir, "log.txt")
-	o := runBinary(bin, dir, args, logFn, time.Duration(*timeoutFlag*float64(time.Second)))
+	var early []string
+	snapshot := func() {
+		for _, m := range c.Models {
+			if !c.isSplit(m.Name) {
+				continue
+			}
+			for _, label := range labels {
+				res, _ := readDataset(splitFn(m.Name), "/MODELS/"+m.Name+"/"+label)
+				early = append(early, fmt.Sprintf("IMPLATEXIT %s %s %s", m.Name, label, formatResult(res)))
+			}
+		}
+	}
+	o := runBinary(bin, dir, args, logFn, time.Duration(*timeoutFlag*float64(time.Second)), snapshot)
 	fmt.Fprintf(out, "RUN exit=%d timeout=%d wall_ms=%d\n", o.exit, b2i(o.timedOut), o.wallMs)
 	fmt.Fprintf(out, "CHILDREN alive_at_exit=%d waited_ms=%d killed=%d\n", o.alive, o.waitedMs, b2i(o.killedKid))
+	for _, l := range early {
+		fmt.Fprintln(out, l)
+	}
 	if o.startErr != "" {
 		fmt.Fprintf(out, "LOG simgen: %s\n", oneLine(o.startErr))
 	}
